@@ -743,6 +743,12 @@ func (s *Sim) build(a *Action, bs *BState) world.Req {
 		a.PID = s.resolvePID(a)
 		rq.Path = w.P("/recover")
 		f["email"] = a.PID
+		switch a.opt("spell") { // another spelling of the same identifier (what a case-insensitive lookup finds)
+		case "upper":
+			f["email"] = strings.ToUpper(a.PID[:1]) + a.PID[1:]
+		case "kelvin": // U+212A KELVIN SIGN lower-cases to 'k', U+0130 to 'i̇'
+			f["email"] = strings.Replace(strings.Replace(a.PID, "s", "\u017f", 1), "k", "\u212a", 1)
+		}
 	case "recover_end":
 		a.Secret, a.Resolved = s.resolveToken(a, "recover")
 		a.Secret2 = s.newPassword(a)
